@@ -129,6 +129,11 @@ def t_select_comp(f):
     return [Select(i[1], **{fresh("s"): C(i[0]) + C(i[1])})]
 
 
+def t_select_first(f):
+    i = f.ints(); need(len(i) >= 2)
+    return [Select(i[0])]
+
+
 def t_select_last(f):
     i = f.ints(); need(len(i) >= 2)
     return [Select(i[-1])]
@@ -257,7 +262,26 @@ def t_win_expanding(f):
     return [Window(Derive(**{fresh("cum"): Fn("sum", C(i[1]))}), expanding=True)]
 
 
+def t_agg_expr(f):
+    """aggregate whose value is an expression over aggregate functions"""
+    i = f.ints(); need(len(i) >= 2)
+    return [Aggregate(**{fresh("s"): Fn("sum", C(i[1])) + 1, fresh("m"): Fn("max", C(i[0])) - Fn("min", C(i[1]))})]
+
+
+def t_group_agg_expr(f):
+    i = f.ints(); need(len(i) >= 2)
+    return [Group([C(i[0])], Aggregate(**{fresh("s"): Fn("sum", C(i[1])) + 1}))]
+
+
+def t_group_const(f):
+    """group by a computed constant column (an integer literal must not turn into a positional reference)"""
+    i = f.ints(); need(i)
+    k = fresh("k")
+    return [Derive(**{k: L(2)}), Group([C(k)], Aggregate(**{fresh("s"): Fn("sum", C(i[0]))}))]
+
+
 ALPHABET = {
+    "agg_expr": t_agg_expr, "group_agg_expr": t_group_agg_expr, "group_const": t_group_const,
     "derive_case": t_derive_case, "filter_in": t_filter_in, "filter_or_null": t_filter_or_null, "derive_coalesce": t_derive_coalesce,
     "group2_agg": t_group2_agg, "join_v": t_join_v, "join_right": t_join_right, "join_full": t_join_full, "group_win_sum": t_group_win_sum,
     "win_lag": t_win_lag, "win_expanding": t_win_expanding, "take_all": t_take_all, "group_take_all": t_group_take_all,
@@ -266,7 +290,7 @@ ALPHABET = {
     "filter_gt": t_filter_gt, "filter_last": t_filter_last, "filter_null": t_filter_null,
     "sort_asc": t_sort_asc, "sort_desc2": t_sort_desc2, "sort_last_desc": t_sort_last_desc,
     "take_n": t_take_n, "take_2": t_take_2, "take_range": t_take_range, "take_open": t_take_open,
-    "select_2": t_select_2, "select_comp": t_select_comp, "select_last": t_select_last,
+    "select_2": t_select_2, "select_comp": t_select_comp, "select_last": t_select_last, "select_first": t_select_first,
     "agg": t_agg, "agg_minmax": t_agg_minmax, "group_agg": t_group_agg, "group_take": t_group_take,
     "group_rownum": t_group_rownum, "win_sum": t_win_sum, "rownum": t_rownum,
     "join_inner": t_join_inner, "join_left": t_join_left, "distinct": t_distinct, "append": t_append,
@@ -391,6 +415,24 @@ def targeted_distinct_family():
     return out
 
 
+def targeted_group_take_family():
+    """first row per group (sorted take 1 inside group), a transform that reads a non-key column of the chosen row,
+    then a projection of exactly the group keys"""
+    out = []
+    for mid in ("filter_last", "filter_null", "sort_last_desc", "sort_desc2", "derive_mix", None):
+        for proj in ("select_first", "select_2", None):
+            seq = ("group_take",) + ((mid,) if mid else ()) + ((proj,) if proj else ())
+            pipe = build("sel", seq)
+            if pipe is not None:
+                out.append(("sel:" + ">".join(seq), Prog(pipe)))
+            seq2 = ("group_take", mid, "take_n", proj) if mid and mid.startswith("sort") and proj else None
+            if seq2:
+                pipe = build("sel", seq2)
+                if pipe is not None:
+                    out.append(("sel:" + ">".join(seq2), Prog(pipe)))
+    return out
+
+
 def family_c01(tier, seed):
     """quick: all pipelines of <=2 templates on both heads + a seed-rotated slice of length 3;
     thorough: all of length <=3 on the explicit-column head, <=2 on the wildcard head, plus a slice of length 4"""
@@ -407,7 +449,7 @@ def family_c01(tier, seed):
         rr.shuffle(l2)
         rr.shuffle(l3)
         l2, l3 = l2[:300], l3[:150]
-    out += l2 + l3 + targeted_let_family() + targeted_distinct_family()
+    out += l2 + l3 + targeted_let_family() + targeted_distinct_family() + targeted_group_take_family()
     out += list(enumerate_family(1 if tier == "quick" else 2, heads=("lit",)))
     if tier == "quick":
         out += list(enumerate_family(2))
@@ -679,7 +721,9 @@ def family_c02(tier, seed):
         rc.shuffle(chains)
         chains = chains[:120]
     items += chains
-    d3 = list(trees_depth3())
+    d3 = list(trees_depth3()) if tier == "quick" else list(trees_depth3(gops=("+", "*", "-", "/", "%")))
+    # (a real-valued grandchild under % or // is outside the int-only domain)
+    d3 = [x for x in d3 if not (x[0].split(":")[2] in ("%", "//") and "/" in x[0].split(":")[3])]
     if tier == "quick":
         rnd = random.Random(seed)
         rnd.shuffle(d3)
@@ -710,7 +754,7 @@ def targeted_sort_join_take_family():
 
 def family_c03(tier, seed):
     """every pipeline (explicit-column head) that contains at least one sort, over the sort/take-centred alphabet"""
-    names = ["sort_asc", "sort_desc2", "sort_last_desc", "take_n", "take_2", "take_range", "take_open", "select_2", "select_comp",
+    names = ["sort_asc", "sort_desc2", "sort_last_desc", "take_n", "take_2", "take_range", "take_open", "select_2", "select_comp", "select_first",
              "select_last", "derive_add", "filter_gt", "filter_null", "join_inner", "join_left", "group_agg", "agg",
              "group_take", "rownum", "distinct"]
     out = []
@@ -755,7 +799,7 @@ def family_c03(tier, seed):
         rr = random.Random(seed + 1)
         rr.shuffle(l3)
         l3 = l3[:200]
-    out += [x for x in l3 if x[0].count(">") == 2] + targeted_let_family() + targeted_sort_join_take_family()
+    out += [x for x in l3 if x[0].count(">") == 2] + targeted_let_family() + targeted_sort_join_take_family() + targeted_group_take_family()
     if tier == "quick":
         rnd = random.Random(seed)
         head = [x for x in out if x[0].startswith("x:") or x[0].startswith("let_") or x[0].count(">") <= 1 or x[0].count(">") == 3]
